@@ -70,6 +70,15 @@ def gen_case(rng, tier):
             rest = 0
         else:
             rest = (1 << (nbits - 1)) | rng.randrange(1 << (nbits - 1)) if nbits > 1 else 1
+            # bit patterns on which a leading-zero count that goes through floating point rounds the wrong way:
+            # all ones below the top bit (2^k - 1), all ones but the lowest few bits, and the exact power of two
+            shape = rng.random()
+            if shape < 0.25:
+                rest = (1 << nbits) - 1
+            elif shape < 0.40:
+                rest = ((1 << nbits) - 1) ^ rng.randrange(1 << min(nbits - 1, 8)) if nbits > 1 else 1
+            elif shape < 0.50:
+                rest = 1 << (nbits - 1)
         H = (rest << p) | idx
         keys.append(preimage8(H, seed))
     nsk = rng.choice([1, 2, 3, 5])
